@@ -52,10 +52,10 @@ theorem execInstr_ok (lines : List Text.Str) (rec : Rec) (i : Instr)
     obtain ⟨st1, h1⟩ := h c (by simp [Instr.kids]) st
     simp [execInstr, h1, bind, Except.bind, pure, Except.pure]
   | visitIn cs f dst =>
-    obtain ⟨r, h1⟩ := visitInFlow_ok rec cs (env.get f) (by simpa [Instr.kids] using h) st
+    obtain ⟨r, h1⟩ := visitInFlow_ok rec cs (env.get st.cur f) (by simpa [Instr.kids] using h) st
     simp [execInstr, h1, bind, Except.bind, pure, Except.pure]
   | scopeBody kind self register args body =>
-    have hv := visitInFlow_ok rec body (st.newScope kind).2.2 (by simpa [Instr.kids] using h)
+    have hv := visitInFlow_ok rec body (st.newScope (if kind then .cls else .func)).2.2 (by simpa [Instr.kids] using h)
     simp only [execInstr, bind, Except.bind, pure, Except.pure]
     split
     · rename_i e he
